@@ -15,10 +15,14 @@ use crate::oracle::groups;
 pub enum Case {
     Scripted(ScriptedCase),
     Real { group: String, shape: ShapeSpec, lj: bool, cfg: OptCfg, via_api: bool },
+    /// a quench of more loops than a 31- or 32-bit counter holds (inner_steps 1-3), every
+    /// proposal worse than the start: whatever the loop count, nothing may be accepted
+    Long { loops: u64, inner: u64, kt_finish: Option<f64>, kt_ratio: Option<f64>, seed: u64 },
 }
 
 fn cfg_of(c: &Case) -> &OptCfg {
     match c {
+        Case::Long { .. } => unreachable!("long quenches are judged by check_long"),
         Case::Scripted(s) => &s.cfg,
         Case::Real { cfg, .. } => cfg,
     }
@@ -98,8 +102,42 @@ fn judge(c: &Case, r: &RunReport, direct_scores: Option<(Option<f64>, Option<f64
     st.sample(|| json!({"case": c, "input_score": init, "returned_score": fin, "calls": r.monitor.calls, "resolved": r.resolved.len(), "worse_resolved_all_rejected": worse_resolved}));
 }
 
+fn check_long(c: &Case, st: &mut Stats) {
+    let (loops, inner, kt_finish, kt_ratio, seed) = match c {
+        Case::Long { loops, inner, kt_finish, kt_ratio, seed } => (*loops, *inner, *kt_finish, *kt_ratio, *seed),
+        _ => return,
+    };
+    st.eval();
+    let cfg = OptCfg { steps: loops * inner, inner_steps: inner, kt_start: 0., kt_finish, kt_ratio, max_step_size: 1e-6, seed, convergence: None, builder_history: None };
+    let b = match cfg.builder() {
+        Ok(b) => b,
+        Err(e) => {
+            st.inconclusive.push(e);
+            return;
+        }
+    };
+    let out = std::panic::catch_unwind(std::panic::AssertUnwindSafe(|| {
+        let fin = b.build().optimise_state(super::c07::TailState::new(1.0));
+        crate::observe::spy::params_of(&fin).iter().any(|x| *x != 0.)
+    }));
+    st.add("proposals_in_long_quenches", loops * inner);
+    st.nontrivial(hash64(&[loops, inner, seed]));
+    st.count(&format!("long_quenches[{} loops]", if loops > (1u64 << 32) { "> 2^32" } else if loops > (1u64 << 31) { "> 2^31" } else { "<= 2^31" }));
+    match out {
+        Ok(true) => st.violation(Violation {
+            kind: "c05.run".into(),
+            signature: "optimise_state:zero-temperature:worse-score-accepted".into(),
+            case: serde_json::to_value(c).unwrap(),
+            detail: json!({"what": "every proposal of this run is worse than the input by 1.0 and kt_start = 0, yet the returned state is not the input", "loops": loops, "inner_steps": inner}),
+        }),
+        Ok(false) => {}
+        Err(_) => st.count("runs_that_panicked(not a C05 event; C20 decides)"),
+    }
+}
+
 pub fn check(c: &Case, st: &mut Stats) {
     match c {
+        Case::Long { .. } => check_long(c, st),
         Case::Scripted(sc) => {
             let r = mc::run_scripted(sc, false);
             judge(c, &r, None, st);
@@ -166,7 +204,18 @@ pub fn gen_case<R: Rng>(rng: &mut R, real: bool) -> Case {
             1 => Script::Random { p: [0.2, 0.1, 0.5, 0.2], seed: rng.gen(), gap: 1. },
             _ => Script::Random { p: [0.05, 0.05, 0.8, 0.1], seed: rng.gen(), gap: [1e-3, 1e-3, 1e-16, 1e-300, 5e-324][rng.gen_range(0, 5)] },
         };
-        let cfg = mc::rand_cfg(rng, 0., 20_000);
+        let mut cfg = mc::rand_cfg(rng, 0., 20_000);
+        // "whatever the other settings are": cooling ratios outside [0,1] (heating, sign
+        // changes), extreme finishing temperatures, and thousands of tiny loops
+        if rng.gen_bool(0.25) {
+            cfg.kt_ratio = Some([-1., -0.5, 1.5, 2., -1e3, 1. - 1e-12][rng.gen_range(0, 6)]);
+        }
+        if rng.gen_bool(0.15) {
+            cfg.kt_finish = Some([1e300, 1e-300, 5e-324][rng.gen_range(0, 3)]);
+        }
+        if rng.gen_bool(0.25) {
+            cfg.inner_steps = rng.gen_range(1, 4);
+        }
         let mut sc = ScriptedCase { init, bounds, script, cfg, via_api: rng.gen_bool(0.3) };
         mc::maybe_start_outside(rng, &mut sc, 0.15);
         Case::Scripted(sc)
@@ -233,7 +282,7 @@ fn cli_leg(ctx: &Ctx, st: &mut Stats) {
 }
 
 pub fn run(ctx: &Ctx) {
-    ctx.set_rule("optimise_state with kt_start = 0 over the configuration space: kt_finish in {unset, 0, 1e-3, 0.1, 10} x kt_ratio in {unset, 0, 0.1, 0.5, 1} x steps 1..20000 x inner_steps (equal, smaller, non-dividing, larger than steps) x convergence {unset, 0, 1e-6, 1} x max_step 1e-4..1 x seeds, built through the CLI's argument parser (the only way to leave kt_finish unset) and through the builder API; plus the real binary's own pipeline (hook log: score entering and leaving stages 1 and 3 of every replica); on scripted states (random better/equal/worse/undefined scores; bowl landscapes with an undefined region) and on real hard and LJ states of all groups wrapped in a Spy. The trace monitor resolves accept/reject decisions from the parameter vectors; event = a resolved acceptance of a worse score, or a returned score below the input score (monitor's belief, and re-scored result for real states). Non-trivial = >= 2 inner loops and >= 1 worse proposal resolved; distinct by configuration");
+    ctx.set_rule("optimise_state with kt_start = 0 over the configuration space: kt_finish in {unset, 0, 1e-3, 0.1, 10} x kt_ratio in {unset, 0, 0.1, 0.5, 1, and outside [0,1]: -1e3, -1, -0.5, 1.5, 2} x steps 1..20000 (also thousands of 1-3-step loops; and lean quenches in which every proposal is worse, of 2e3-2e5 loops and of more than 2^31 - thorough: 2^32 - one-step loops) x inner_steps (equal, smaller, non-dividing, larger than steps) x convergence {unset, 0, 1e-6, 1} x max_step 1e-4..1 x seeds, built through the CLI's argument parser (the only way to leave kt_finish unset) and through the builder API; plus the real binary's own pipeline (hook log: score entering and leaving stages 1 and 3 of every replica); on scripted states (random better/equal/worse/undefined scores; bowl landscapes with an undefined region) and on real hard and LJ states of all groups wrapped in a Spy. The trace monitor resolves accept/reject decisions from the parameter vectors; event = a resolved acceptance of a worse score, or a returned score below the input score (monitor's belief, and re-scored result for real states). Non-trivial = >= 2 inner loops and >= 1 worse proposal resolved; distinct by configuration");
     let n_s = ctx.tier.pick(60u64, 3_000u64);
     let n_r = ctx.tier.pick(6u64, 250u64);
     let prev = std::panic::take_hook();
@@ -256,7 +305,26 @@ pub fn run(ctx: &Ctx) {
         return;
     }
     let (n_s, n_r) = (if only == "real" { 0 } else { n_s }, if only == "scripted" { 0 } else { n_r });
-    par_shards(ctx, 5, 64, |_, rng, st| {
+    let tier = ctx.tier;
+    par_shards(ctx, 5, 64, |i, rng, st| {
+        // long quenches: short-loop runs by the thousand loops, and - one per quick run, one per
+        // core in the thorough tier - more loops than a 31-bit (thorough: also 32-bit) counter holds
+        if only.is_empty() {
+            let ratios = [None, Some(0.1), Some(0.5), Some(-1.), Some(0.999)];
+            let fins = [None, Some(1e-3), Some(10.)];
+            check(&Case::Long { loops: rng.gen_range(2_000, 200_000), inner: rng.gen_range(1, 4), kt_finish: fins[rng.gen_range(0, 3)], kt_ratio: ratios[rng.gen_range(0, 5)], seed: rng.gen::<u32>() as u64 }, st);
+            let long = match tier {
+                Tier::Quick => i == 1,
+                Tier::Thorough => i < 16,
+            };
+            if long {
+                let loops = match tier {
+                    Tier::Thorough if i % 4 == 0 => (1u64 << 32) + rng.gen_range(1_000, 100_000),
+                    _ => (1u64 << 31) + rng.gen_range(1_000, 100_000),
+                };
+                check(&Case::Long { loops, inner: 1, kt_finish: fins[rng.gen_range(0, 3)], kt_ratio: ratios[rng.gen_range(0, 5)], seed: rng.gen::<u32>() as u64 }, st);
+            }
+        }
         for _ in 0..n_s {
             check(&gen_case(rng, false), st);
         }
